@@ -365,7 +365,7 @@ for _pid, _txt in _ADDED14.items():
     PROPS[_pid]["explanation"] = PROPS[_pid]["explanation"] + _txt
 
 _ADDED15 = {
-    "C08": " R-SURPLUS: if the zero fill of a regular chain stops at the end of the old last sector, no write-back may fail between appending sectors to the chain and updating the entry's length - on today's tree both halves hold, which is the recorded finding D26 (known_findings.json): after such a failure a growing set_len exposes the stream's own discarded bytes. R-ZERO also requires that the length store does not precede the zero fill.",
+    "C08": " R-SURPLUS: if the zero fill of a regular chain stops at the end of the old last sector, no write-back may fail between appending sectors to the chain and updating the entry's length (defect D26, repaired by bc7ee1f: the regular fill now clears the whole gained range; before, a growing set_len after such a failure exposed the stream's own discarded bytes). R-ZERO also requires that the length store does not precede the zero fill.",
     "C11": " R-POSKEEP also runs for this property: the audited discharge of `total_len - position` in the handle's arithmetic rests on position <= total_len, which R-POSKEEP maintains (a length re-read after a failed resize without clamping the position makes the next relative seek trip the assertion).",
     "C15": " R-FREELIST also runs for this property (a free list that is cut instead of filtered after the MiniFAT was trimmed forgets released mini sectors that sit behind the trimmed ones). R-DIRLEN also covers the vector that open_internal hands to Directory::new: popping trailing unallocated entries at load time makes allocate_dir_entry extend a chain that has room.",
 }
